@@ -94,38 +94,127 @@ fn width(s: &str) -> usize {
     s.bytes().map(|b| if b == b'\t' { 4 } else { 1 }).sum()
 }
 
-/// R6: reference rendering of one item, written from the C16 statement.
-pub fn render_item(src: &str, s: usize, e: usize) -> (usize, usize, String) {
+/// Strip SGR escape sequences (ESC [ ... m). Returns the plain text and, per byte of it, the active SGR code
+/// (None = no colour / after a reset).
+pub fn strip_ansi(s: &str) -> (String, Vec<Option<u32>>) {
+    let b = s.as_bytes();
+    let mut out = Vec::with_capacity(b.len());
+    let mut mask = Vec::with_capacity(b.len());
+    let mut active: Option<u32> = None;
+    let mut i = 0;
+    while i < b.len() {
+        if b[i] == 0x1b && i + 1 < b.len() && b[i + 1] == b'[' {
+            let mut j = i + 2;
+            while j < b.len() && (b[j].is_ascii_digit() || b[j] == b';') {
+                j += 1;
+            }
+            if j < b.len() && b[j] == b'm' {
+                let code = std::str::from_utf8(&b[i + 2..j]).unwrap_or("");
+                let first = code.split(';').next().unwrap_or("");
+                active = match first.parse::<u32>() {
+                    Ok(0) | Err(_) => None,
+                    Ok(n) => Some(n),
+                };
+                i = j + 1;
+                continue;
+            }
+        }
+        out.push(b[i]);
+        mask.push(active);
+        i += 1;
+    }
+    (String::from_utf8(out).unwrap_or_default(), mask)
+}
+
+/// Locate every JSON code block in the colour-stripped pretty output, in order. Returns byte offsets.
+fn locate_items(plain: &str, blocks: &[&str]) -> Result<Vec<usize>, String> {
+    let mut pos = 0;
+    let mut out = vec![];
+    for (k, b) in blocks.iter().enumerate() {
+        match plain[pos..].find(b) {
+            Some(p) => {
+                out.push(pos + p);
+                pos += p + b.len();
+            }
+            None => return Err(format!("the pretty form (colour codes stripped) does not contain the code block of JSON item {} at or after the previous item", k + 1)),
+        }
+    }
+    let extra = plain.matches("_start").count();
+    if extra != blocks.len() {
+        return Err(format!("the pretty form shows {} `_start` markers but the JSON form has {} items", extra, blocks.len()));
+    }
+    Ok(out)
+}
+
+/// Highlighted text of one item: per line the coloured bytes (the `_start` / `‾end` markers excluded), empty lines dropped.
+fn highlighted(plain: &str, mask: &[Option<u32>], at: usize, len: usize) -> String {
+    let mut lines: Vec<String> = vec![];
+    let item = &plain[at..at + len];
+    let mut off = at;
+    for line in item.split('\n') {
+        let lb = line.as_bytes();
+        let mut segs: Vec<Vec<u8>> = vec![];
+        let mut cur: Option<Vec<u8>> = None;
+        for (i, ch) in lb.iter().enumerate() {
+            if mask[off + i].is_some() {
+                cur.get_or_insert_with(Vec::new).push(*ch);
+            } else if let Some(c) = cur.take() {
+                segs.push(c);
+            }
+        }
+        if let Some(c) = cur.take() {
+            segs.push(c);
+        }
+        let text: Vec<u8> = segs.into_iter().filter(|g| g != b"_start" && g != "‾end".as_bytes()).flatten().collect();
+        if !text.is_empty() {
+            lines.push(String::from_utf8(text).unwrap_or_default());
+        }
+        off += lb.len() + 1;
+    }
+    lines.join("\n")
+}
+
+/// C16 rendering rule, checked without assuming the width of the number column: returns Err(description).
+pub fn check_rendering(src: &str, s: usize, e: usize, block: &str) -> Result<(), String> {
     let first = line_of(src, s);
     let last = line_of(src, e - 1);
     let ls = src[..s].rfind('\n').map(|p| p + 1).unwrap_or(0);
     let les = src[..e - 1].rfind('\n').map(|p| p + 1).unwrap_or(0);
     let le = src[e - 1..].find('\n').map(|p| p + e - 1).unwrap_or(src.len());
-    let mut o = String::new();
-    o.push_str(&" ".repeat(9 + width(&src[ls..s])));
-    o.push_str("_start\n");
-    for (i, l) in src[ls..le].split('\n').enumerate() {
-        o.push_str(&format!("{:7} |{}\n", first + i, l.replace('\t', "    ")));
+    let want_lines: Vec<String> = src[ls..le].split('\n').map(|l| l.replace('\t', "    ")).collect();
+    let got: Vec<&str> = block.split('\n').collect();
+    if got.len() != want_lines.len() + 2 {
+        return Err(format!("the item has {} lines; expected a `_start` line, the {} source lines {}..={} and an `‾end` line", got.len(), want_lines.len(), first, last));
     }
-    o.push_str(&" ".repeat(9 + width(&src[les..e - 1])));
-    o.push_str("‾end");
-    (first, last, o)
-}
-
-/// split the pretty output into (index text, status text, body)
-fn split_pretty(pretty: &str) -> Result<Vec<(String, String, String)>, String> {
-    if pretty == "\n" {
-        return Ok(vec![]);
+    // width of the number column from the first code line
+    let mut w: Option<usize> = None;
+    for (i, wl) in want_lines.iter().enumerate() {
+        let g = got[i + 1];
+        let Some(prefix) = g.strip_suffix(wl.as_str()) else { return Err(format!("code line {} is {:?}; it does not end with the source line (tabs as four spaces) {:?}", first + i, g, wl)) };
+        let digits: String = prefix.chars().filter(|c| c.is_ascii_digit()).collect();
+        if digits != (first + i).to_string() {
+            return Err(format!("code line {:?} is not prefixed by its 1-based number {}", g, first + i));
+        }
+        let pw = prefix.chars().count();
+        match w {
+            None => w = Some(pw),
+            Some(x) => {
+                if x != pw {
+                    return Err(format!("the number column is not fixed-width: {x} and {pw} characters"));
+                }
+            }
+        }
     }
-    let Some(rest) = pretty.strip_prefix("\n-------- [ ") else { return Err(format!("pretty output does not start with an item header: {:?}", truncate(pretty, 200))) };
-    let Some(rest) = rest.strip_suffix('\n') else { return Err("pretty output does not end with a line break".into()) };
-    let mut out = vec![];
-    for piece in rest.split("\n-------- [ ") {
-        let Some((head, body)) = piece.split_once('\n') else { return Err(format!("item without body: {:?}", truncate(piece, 200))) };
-        let Some((idx, st)) = head.split_once(" ]") else { return Err(format!("malformed header {head:?}")) };
-        out.push((idx.to_string(), st.to_string(), body.to_string()));
+    let w = w.unwrap_or(0);
+    let want_start = format!("{}_start", " ".repeat(w + width(&src[ls..s])));
+    if got[0] != want_start {
+        return Err(format!("the start marker line is {:?}, expected {:?} (column of the first removed character, tab = 4)", got[0], want_start));
     }
-    Ok(out)
+    let want_end = format!("{}‾end", " ".repeat(w + width(&src[les..e - 1])));
+    if got[got.len() - 1] != want_end {
+        return Err(format!("the end marker line is {:?}, expected {:?} (column of the last removed character, tab = 4)", got[got.len() - 1], want_end));
+    }
+    Ok(())
 }
 
 struct Lists {
@@ -181,21 +270,16 @@ pub fn oracle_c15(c: &AstCase, obs: &mut Obs) -> Verdict {
         Ok(p) => p,
         Err(p) => vfail!("list(pretty) failed: {p}\n  src = {:?}", r.src),
     };
-    let pitems = match split_pretty(&pretty) {
-        Ok(p) => p,
+    let (plain, mask) = strip_ansi(&pretty);
+    let blocks: Vec<&str> = items.iter().map(|i| i.block.as_str()).collect();
+    let at = match locate_items(&plain, &blocks) {
+        Ok(a) => a,
         Err(e) => vfail!("{e}{}", show(&r.src, &pretty)),
     };
-    if pitems.len() != exp.len() {
-        vfail!("pretty list has {} items, expected {}{}", pitems.len(), exp.len(), show(&r.src, &pretty));
-    }
     let mut highlighted_all: Vec<String> = vec![];
-    for (k, (g, (_, _, body))) in exp.iter().zip(pitems.iter()).enumerate() {
-        let mut parts = vec![];
-        for seg in body.split("\x1b[31m").skip(1) {
-            parts.push(seg.split("\x1b[0m").next().unwrap_or("").to_string());
-        }
-        let hl = parts.join("\n");
-        let want = r.src[g.start..g.end].replace('\t', "    ");
+    for (k, g) in exp.iter().enumerate() {
+        let hl = highlighted(&plain, &mask, at[k], blocks[k].len());
+        let want: String = r.src[g.start..g.end].replace('\t', "    ").split('\n').filter(|l| !l.is_empty()).collect::<Vec<_>>().join("\n");
         if hl != want {
             vfail!("item {} highlights {:?}, the deleted region is {:?}{}", k + 1, hl, want, show(&r.src, &pretty));
         }
@@ -218,20 +302,24 @@ pub fn oracle_c15(c: &AstCase, obs: &mut Obs) -> Verdict {
     let mut keep = vec![true; src_x.len()];
     let mut cursor = 0usize;
     for (h, it) in highlighted_all.iter().zip(items.iter()) {
-        if h.is_empty() {
-            continue;
-        }
-        let from = cursor.max(line_start(it.first));
-        match src_x[from..].find(h.as_str()) {
-            Some(p) => {
-                let at = from + p;
-                for k in keep.iter_mut().take(at + h.len()).skip(at) {
-                    *k = false;
-                }
-                cursor = at + h.len();
+        // every highlighted line is located at or after the start of the item's first line, in order
+        let mut from = cursor.max(line_start(it.first));
+        for hl_line in h.split('\n') {
+            if hl_line.is_empty() {
+                continue;
             }
-            None => vfail!("highlighted text {:?} does not occur at or after line {} of the source{}", truncate(h, 200), it.first, show(&r.src, &pretty)),
+            match src_x[from..].find(hl_line) {
+                Some(p) => {
+                    let a0 = from + p;
+                    for k in keep.iter_mut().take(a0 + hl_line.len()).skip(a0) {
+                        *k = false;
+                    }
+                    from = a0 + hl_line.len();
+                }
+                None => vfail!("highlighted text {:?} does not occur at or after line {} of the source{}", truncate(hl_line, 200), it.first, show(&r.src, &pretty)),
+            }
         }
+        cursor = from;
     }
     let rest = nows(&refmodel::kept_text(&src_x, &keep));
     if rest != nows(&out) {
@@ -303,20 +391,15 @@ pub fn oracle_c17(c: &AstCase, obs: &mut Obs) -> Verdict {
     if items.len() != exp_ready.len() {
         vfail!("list has {} items, expected {}{}", items.len(), exp_ready.len(), show(&r.src, &js));
     }
-    // pretty form agrees in count and status
+    // pretty form: same items (located by their code blocks)
     let pretty = match call_list(&r.src, cfg, true, false) {
         Ok(p) => p,
         Err(p) => vfail!("list_all(pretty) failed: {p}\n  src = {:?}", r.src),
     };
-    match split_pretty(&pretty) {
-        Ok(p) => {
-            let st: Vec<bool> = p.iter().map(|(_, s, _)| s.contains("Ready")).collect();
-            let want_st: Vec<bool> = exp_all.iter().map(|g| g.ready).collect();
-            if st != want_st {
-                vfail!("pretty list_all statuses {:?}, expected {:?}{}", st, want_st, show(&r.src, &pretty));
-            }
-        }
-        Err(e) => vfail!("{e}{}", show(&r.src, &pretty)),
+    let (plain, _) = strip_ansi(&pretty);
+    let blocks: Vec<&str> = items_all.iter().map(|i| i.block.as_str()).collect();
+    if let Err(e) = locate_items(&plain, &blocks) {
+        vfail!("list_all: {e}{}", show(&r.src, &pretty));
     }
     obs.evals(2);
     let n_pending = exp_all.iter().filter(|g| !g.ready).count();
@@ -371,27 +454,17 @@ pub fn oracle_c16(c: &AstCase, obs: &mut Obs) -> Verdict {
             Ok(p) => p,
             Err(p) => vfail!("{name}(pretty) failed: {p}\n  src = {:?}", r.src),
         };
-        let pitems = match split_pretty(&pretty) {
-            Ok(p) => p,
+        // pretty form with colour codes stripped == JSON code block, item by item, in order, nothing else item-like
+        let (plain, mask) = strip_ansi(&pretty);
+        let blocks: Vec<&str> = items.iter().map(|i| i.block.as_str()).collect();
+        let at = match locate_items(&plain, &blocks) {
+            Ok(a) => a,
             Err(e) => vfail!("{name}: {e}{}", show(&r.src, &pretty)),
         };
-        if pitems.len() != items.len() {
-            vfail!("{name}: pretty form has {} items, JSON has {}{}", pitems.len(), items.len(), show(&r.src, &pretty));
-        }
-        for (k, (it, (idx, st, body))) in items.iter().zip(pitems.iter()).enumerate() {
-            if idx != &(k + 1).to_string() {
-                vfail!("{name}: item {} is numbered {:?}{}", k + 1, idx, show(&r.src, &pretty));
-            }
-            let want_st = if it.ready { "  Ready  --------" } else { " Pending --------" };
-            if st != want_st {
-                vfail!("{name}: item {} header status is {:?}, expected {:?}", k + 1, st, want_st);
-            }
-            if strip_colors(body) != it.block {
-                vfail!("{name}: item {}: pretty form without colour codes differs from the JSON code block\n  pretty = {:?}\n  json   = {:?}\n  src = {:?}", k + 1, strip_colors(body), it.block, truncate(&r.src, 1200));
-            }
-            let colour = if it.ready { "\x1b[31m" } else { "\x1b[33m" };
-            if !body.contains(colour) || !body.contains("\x1b[32m_start\x1b[0m") || !body.contains("\x1b[32m‾end\x1b[0m") {
-                vfail!("{name}: item {} lacks the expected colour codes: {:?}", k + 1, body);
+        for (k, it) in items.iter().enumerate() {
+            // something of every item is highlighted in the pretty form (which colour is not specified)
+            if highlighted(&plain, &mask, at[k], it.block.len()).is_empty() {
+                vfail!("{name}: item {} has no highlighted text in the pretty form{}", k + 1, show(&r.src, &pretty));
             }
         }
         let got: Vec<(u64, u64, bool)> = items.iter().map(|i| (i.first, i.last, i.ready)).collect();
@@ -401,12 +474,12 @@ pub fn oracle_c16(c: &AstCase, obs: &mut Obs) -> Verdict {
             continue;
         }
         for (k, (g, it)) in exp.iter().zip(items.iter()).enumerate() {
-            let (first, last, block) = render_item(&r.src, g.start, g.end);
+            let (first, last) = (line_of(&r.src, g.start), line_of(&r.src, g.end - 1));
             if (it.first, it.last) != (first as u64, last as u64) {
                 vfail!("{name}: item {} line_range is {:?}, expected {:?}", k + 1, (it.first, it.last), (first, last));
             }
-            if it.block != block {
-                vfail!("{name}: item {} is rendered as\n{}\nexpected\n{}\n  src = {:?}", k + 1, it.block, block, truncate(&r.src, 1200));
+            if let Err(e) = check_rendering(&r.src, g.start, g.end, &it.block) {
+                vfail!("{name}: item {}: {e}\n  rendered as\n{}\n  src = {:?}", k + 1, it.block, truncate(&r.src, 1200));
             }
             let ls = r.src[..g.start].rfind('\n').map(|p| p + 1).unwrap_or(0);
             if g.start > ls || r.src[g.start..g.end].contains('\t') || first != last {
@@ -453,7 +526,7 @@ pub fn check(ctx: &mut Ctx, id: &'static str) {
             ctx.reshrink::<AstCase, _, _>("ast-documents", oracle_c15, crate::props::clean::shrink_ast);
         }
         Which::C16 => {
-            ctx.rule = "cases = documents of the C15 space plus files whose first byte is a line break; list and list_all, pretty and JSON. Oracle: JSON parses into objects with exactly the keys line_range / annotated_code_block / current_status; every item's code block == an independent renderer written from the property text (`_start` line, numbered lines `{:7} |`, tabs as four spaces, `‾end` line, columns with tab = 4); pretty form minus colour codes == JSON block item by item; headers numbered 1..n with the right status; colour codes present. Non-trivial = a region not starting at column 0, containing a tab, or spanning >= 2 lines.".into();
+            ctx.rule = "cases = documents of the C15 space plus files whose first byte is a line break; list and list_all, pretty and JSON. Oracle: JSON parses into objects with exactly the keys line_range / annotated_code_block / current_status; every item's code block satisfies the rendering rule re-derived from the source (a `_start` line, exactly the source lines first..=last each prefixed by its 1-based number in a column of one fixed width that is read off the output, tabs as four spaces, an `‾end` line; marker columns = number-column width + width of the text left of the first / last removed character with tab = 4); the pretty form with SGR colour codes stripped contains the JSON blocks item by item, in order, and nothing else item-like; every item has highlighted text. Header wording, colours and the width of the number column are not asserted (the property does not fix them). Non-trivial = a region not starting at column 0, containing a tab, or spanning >= 2 lines.".into();
             for c in ["first-byte-is-line-break", "tab-left-of-start-marker", "multi-line-region", "pending-item"] {
                 ctx.require_class(c);
             }
